@@ -189,11 +189,12 @@ static void exhaustive(uint32_t cap, int64_t state_limit) {
     int64_t transitions = 0; int bad = 0, truncated = 0;
     while (qi < qn && !bad) {
         memcpy(cur, queue + qi * rec, rec); ++qi;
-        for (uint32_t op = 0; op <= cap + 2 && !bad; ++op) {
+        for (uint32_t op = 0; op <= cap + 5 && !bad; ++op) {
             LOAD(cur);
             if (op <= cap) bad = do_alloc(&s, op);
             else if (op == cap + 1) bad = do_pop(&s, 0);
-            else { bad = do_pop(&s, 1); }
+            else if (op == cap + 2) { bad = do_pop(&s, 1); }
+            else { static const uint32_t huge[] = {0xfffffff8u, 0xfffffffcu, 0xffffffffu}; bad = do_alloc(&s, huge[op - cap - 3]); }   /* sizes whose +4/+8 wrap around 32 bits */
             ++transitions;
             if (bad) break;
             if (s.sh.n >= MAXITEMS - 2) continue;
@@ -235,6 +236,7 @@ static void random_run(uint64_t idx, int thorough) {
                 case 2: size = cap - (uint32_t) rng_below(&r, 17); break;             /* within 16 of capacity */
                 case 3: size = (uint32_t) rng_below(&r, cap / 2 + 1); break;
                 case 4: size = cap / 2 + (uint32_t) rng_range(&r, -8, 8); break;
+                case 6: size = rng_chance(&r, 1, 8) ? 0xffffffffu - (uint32_t) rng_below(&r, 16) : (uint32_t) rng_below(&r, cap / 8 + 2); break;   /* sizes whose +4/+8 wrap around 32 bits */
                 default: size = (uint32_t) rng_below(&r, cap / 8 + 2); break;
             }
             bad = do_alloc(&s, size);
